@@ -53,25 +53,51 @@ def reference_cfg() -> CFG:
 
 
 def rule_accept_needs_end(ctx: Ctx, rid="C06.ACCEPT-NEEDS-END"):
-    """sly only skips the look-ahead in states whose single action is a REDUCE (negative entry):
-    the accept action (0) must stay subject to the `$end` look-ahead, otherwise text after the
-    definition is never even lexed."""
+    """sly skips the look-ahead in "defaulted" states.  That is sound only for states whose single action is a REDUCE
+    (a negative table entry): the accept action (0) must stay subject to the `$end` look-ahead, otherwise text after the
+    definition is never even lexed, and a shift (positive) needs its token.  The loop that fills `defaulted_states` is
+    interpreted abstractly on one representative of each class of table entry (sign domain)."""
+    from pyab_static import absint as A
     m = ctx.mod("sly/yacc.py")
     init = m.get_method("LRTable", "__init__")
-    found = None
+    loop = None
     for n in ast.walk(init):
-        if isinstance(n, ast.If) and "len(rules) == 1" in norm(n.test):
-            found = n
-    if found is None:
+        if isinstance(n, ast.For) and any(isinstance(x, ast.Subscript) and isinstance(x.ctx, ast.Store) and norm(x.value).endswith("defaulted_states")
+                                          for x in ast.walk(n)):
+            loop = n
+    if loop is None or not (isinstance(loop.target, ast.Tuple) and len(loop.target.elts) == 2 and "lr_action" in norm(loop.iter)):
         raise AnalysisError("sly/yacc.py:LRTable.__init__: defaulted-state computation not found")
-    t = found.test
-    cmp = [x for x in ast.walk(t) if isinstance(x, ast.Compare) and norm(x.left) == "rules[0]"]
-    ok = len(cmp) == 1 and len(cmp[0].ops) == 1 and isinstance(cmp[0].ops[0], ast.Lt) and norm(cmp[0].comparators[0]) == "0"
-    ctx.rep.check(ok, rid, "sly/yacc.py:LRTable.__init__[defaulted_states]",
-                  "only single-reduce states are defaulted: accepting needs the $end look-ahead" if ok else
-                  f"defaulted states are selected by `{norm(t)}`: the accept action (0) is defaulted too, so the parser accepts "
-                  "without looking at what follows the definition (trailing junk or a second definition is never read)",
-                  witness="def e{ return \"A\" weighted 1 } junk", site=m.site(found), text=norm(t))
+    sname, aname = [norm(x) for x in loop.target.elts]
+    scenarios = [("a single reduce", {"tok": -3}, True), ("the accept action", {"tok": 0}, False), ("a single shift", {"tok": 4}, False),
+                 ("two reduces", {"t1": -3, "t2": -5}, False), ("reduce and shift", {"t1": -3, "t2": 6}, False)]
+    wrong = []
+    for label, actions, want in scenarios:
+        it = A.Interp(ctx.src)
+        cls = it.class_val(m, m.classes()["LRTable"])
+        selfo = A.Obj(cls, {"defaulted_states": A.ADict({})})
+        env = A.Env(m, {"self": selfo, sname: 7, aname: A.ADict(dict(actions))})
+        try:
+            try:
+                it.exec_block(loop.body, env)
+            except A.ContinueSig:
+                pass
+        except A.RaiseSig:
+            pass
+        except (A.Unsupported, A.NeedChoice) as e:
+            raise AnalysisError(f"sly/yacc.py:LRTable.__init__: defaulted-state computation not understood ({e})")
+        got = len(selfo.attrs["defaulted_states"].items) > 0
+        if got != want:
+            wrong.append((label, got))
+    con = "sly/yacc.py:LRTable.__init__[defaulted_states]"
+    if not wrong:
+        ctx.rep.ok(rid, con, "only single-reduce states are defaulted: accepting needs the $end look-ahead", site=m.site(loop))
+    else:
+        label, got = wrong[0]
+        extra = (": the parser accepts without looking at what follows the definition (trailing junk or a second definition is never read)"
+                 if label == "the accept action" else "")
+        ctx.rep.bad(rid, con, f"a state whose only action is {label} is {'defaulted' if got else 'not defaulted'}{extra}",
+                    witness="def e{ return \"A\" weighted 1 } junk", site=m.site(loop),
+                    text=f"defaulted_states: {label} -> {got}")
 
 
 def rule_grammar_agrees(ctx: Ctx, rid="C06.GRAMMAR-AGREES", maxlen=None, directions=("ref<=ext", "ext<=ref", "mutations")):
@@ -169,7 +195,8 @@ def token_roles(ctx: Ctx):
     return roles
 
 
-def rule_precedence(ctx: Ctx, rid="C02.PRECEDENCE"):
+def rule_precedence(ctx: Ctx, rid="C02.PRECEDENCE", only_errors=False):
+    """only_errors (C07): a chain of operators must parse at all (no nonassoc `error` entry); which way it groups is C02's."""
     g, T = ctx.grammar, ctx.table
     roles = token_roles(ctx)
     strength = {roles["or"]: 1, roles["and"]: 2, roles["not"]: 3}
@@ -179,22 +206,41 @@ def rule_precedence(ctx: Ctx, rid="C02.PRECEDENCE"):
         if c.kind != "sr":
             continue
         prod = g.prods[c.prods[0]]
-        ops = [s for s in prod.syms if s in strength]
-        if not ops or c.terminal not in strength:
+        # the operator of the production: a terminal of the table, or a non-terminal that stands for several of them
+        # (`predicate bool_op predicate`): then the one table decision has to be right for each operator it can be
+        options = []
+        for s_ in prod.syms:
+            if s_ in strength:
+                options.append([s_])
+            elif s_ in g.nonterminals:
+                alts = g.by_name(s_)
+                if alts and all(len(a_.syms) == 1 and a_.syms[0] in strength for a_ in alts):
+                    options.append([a_.syms[0] for a_ in alts])
+        if not options or c.terminal not in strength:
             continue
-        n += 1
-        po, la = ops[0], c.terminal
+        n += max(1, len(options[0]) if len(options[0]) > 1 else 1)
+        la = c.terminal
         con = f"{GR}:{g.cls.name}.precedence[{prod} . {la}]"
         if c.resolution == "error":
+            po = options[0][0]
             ctx.rep.bad(rid, con, f"`{inv[po]}` followed by `{inv[la]}` is a syntax error (nonassoc): chains no longer parse",
                         text=f"{prod} / {la} -> error")
             continue
-        if strength[po] > strength[la]:
-            want = "reduce"
-        elif strength[po] < strength[la]:
-            want = "shift"
-        else:
-            want = c.resolution      # equal strength: either association has the same meaning for and/or
+        if only_errors:
+            ctx.rep.ok(rid, con, f"`{inv[options[0][0]]}` followed by `{inv[la]}` parses ({c.resolution})", text=f"{prod} / {la} parses")
+            continue
+        wrong = None
+        for po in options[0]:
+            if strength[po] > strength[la]:
+                w_ = "reduce"
+            elif strength[po] < strength[la]:
+                w_ = "shift"
+            else:
+                w_ = c.resolution      # equal strength: either association has the same meaning for and/or
+            if w_ != c.resolution:
+                wrong = (po, w_)
+        po = wrong[0] if wrong else options[0][0]
+        want = wrong[1] if wrong else c.resolution
         ok = c.resolution == want and c.by_precedence
         ctx.rep.check(ok, rid, con, f"after `{prod}` with `{inv[la]}` next the table {c.resolution}s: `{inv[po]}` binds "
                       f"{'tighter than' if strength[po] > strength[la] else 'looser than' if strength[po] < strength[la] else 'like'} `{inv[la]}`" if ok else
@@ -216,6 +262,28 @@ def rule_conflicts(ctx: Ctx, rid="C07.LALR-CONFLICTS"):
     else:
         ctx.rep.ok(rid, con, f"{len(T.states)} LALR states, {len(T.conflicts)} conflicts, all resolved by declared precedence")
     ctx.rep.extra["lalr"] = {"lr1_states": T.lr1_states, "lalr_states": len(T.states), "conflicts": len(T.conflicts)}
+
+
+def _only_types_read(fn, slice_attr) -> bool:
+    """Is this `p._slice` used only to read the *type* of its symbols (`p._slice[i].type`, or names unpacked from it
+    that are only used as `<name>.type`)?"""
+    parents = {}
+    for n in ast.walk(fn):
+        for ch in ast.iter_child_nodes(n):
+            parents[ch] = n
+    par = parents.get(slice_attr)
+    if isinstance(par, ast.Subscript) and par.value is slice_attr:
+        up = parents.get(par)
+        return isinstance(up, ast.Attribute) and up.attr == "type"
+    if isinstance(par, ast.Assign) and par.value is slice_attr:
+        names = [x.id for t in par.targets for x in ast.walk(t) if isinstance(x, ast.Name)]
+        for n in ast.walk(fn):
+            if isinstance(n, ast.Name) and n.id in names and isinstance(n.ctx, ast.Load):
+                up = parents.get(n)
+                if not (isinstance(up, ast.Attribute) and up.attr == "type"):
+                    return False
+        return bool(names)
+    return False
 
 
 def rule_layout_free_values(ctx: Ctx, rid="C08.LAYOUT-FREE-VALUES"):
@@ -246,7 +314,7 @@ def rule_layout_free_values(ctx: Ctx, rid="C08.LAYOUT-FREE-VALUES"):
                 base = x.attr.rstrip("0123456789")
                 if x.attr in variable or base in variable:
                     reads.append((x, f"{pname}.{x.attr}"))
-                if x.attr in ("_slice", "_stack"):
+                if x.attr in ("_slice", "_stack") and not _only_types_read(p.func, x):
                     reads.append((x, f"{pname}.{x.attr}"))
             if isinstance(x, ast.Subscript) and dotted(x.value) == pname:
                 if isinstance(x.slice, ast.Constant) and isinstance(x.slice.value, int):
